@@ -99,6 +99,10 @@ class Terms:
             self._memo[l] = t
             return t
         d = self.single_def(l)
+        # a scalar flag/counter that is mutably borrowed can change behind its single assignment
+        # (`let mut keep = true; buf.retain(|x| { keep = false; .. })`): keep it opaque
+        if d is not None and l in self.mut_borrowed and fn.locals[l].hk in ("bool", "int"):
+            d = None
         if d is None or depth > MAXDEPTH:
             t = ("var", l, name or "_%d" % l)
             self._memo[l] = t
